@@ -22,9 +22,11 @@ def main():
         a = subprocess.run(["git", "-C", "/repo", "apply", pd], capture_output=True, text=True)
         if a.returncode != 0:
             print(name, "patch does not apply:", a.stderr[:200]); res[name] = {"error": "no-apply"}; continue
-        r = {}
+        # NEUTRAL_PROPS=C02,C03 re-runs only those checks and keeps the recorded results of the others
+        sel = [x for x in os.environ.get("NEUTRAL_PROPS", "").split(",") if x]
+        r = dict(res.get(name, {})) if sel and isinstance(res.get(name), dict) and "error" not in res.get(name) else {}
         try:
-            for p in PROPS:
+            for p in (sel or PROPS):
                 t = time.time()
                 c = subprocess.run([os.path.join(ROOT, "check"), p, "quick"], capture_output=True, text=True, cwd=ROOT)
                 viol = [l[:300] for l in c.stdout.splitlines() if l.startswith("VIOLATION")]
